@@ -121,6 +121,16 @@ class Norm:
             return "%s(%s)" % (fname(t[1], self.rename), ", ".join(self.s(a) for a in t[2]))
         if k == "bin":
             op = t[1]
+            base_ = op.replace("WithOverflow", "").replace("Unchecked", "")
+            if base_ in ("Add", "Sub"):
+                y_ = t[3]
+                while y_[0] == "cast":
+                    y_ = y_[1]
+                # x + {-1 | 1} is {x - 1 | x + 1} (a step amount chosen once instead of a branch at every step)
+                if y_[0] == "phi" and 1 < len(y_[1]) <= 4 and all(z[0] == "const" and isinstance(z[1], int) and not isinstance(z[1], bool) for z in y_[1]):
+                    return self.s(("phi", frozenset(("bin", op, t[2], z) for z in y_[1])))
+                if y_[0] == "const" and isinstance(y_[1], int) and not isinstance(y_[1], bool) and y_[1] < 0 and not y_[2]:
+                    return self.s(("bin", {"Add": "Sub", "Sub": "Add"}[base_] + op[len(base_):], t[2], ("const", -y_[1], None, y_[3])))
             if self.const_values:
                 # literal arithmetic is folded (a product of three named constants on one side, its value on the other)
                 x, y = t[2], t[3]
@@ -155,7 +165,15 @@ class Norm:
         if k == "array":
             return "[%s]" % ", ".join(self.s(x) for x in t[1])
         if k == "phi":
-            return "phi{%s}" % " | ".join(sorted({self.s(x) for x in t[1]}))
+            flat = []
+            def fl(x, d=0):
+                if x[0] == "phi" and d < 6:
+                    for y in x[1]:
+                        fl(y, d + 1)
+                else:
+                    flat.append(x)
+            fl(t)
+            return "phi{%s}" % " | ".join(sorted({self.s(x) for x in flat}))
         if k == "discr":
             return "discr(%s)" % self.s(t[1])
         if k == "len":
@@ -224,11 +242,21 @@ def alts(t, limit=24):
     return [t]
 
 
-def summary(fn, norm, calls_pred=None, ctx=None):
-    """dict(atoms=set, calls=set, returns=set) of normalised strings."""
-    pv = prov_of(fn, ctx) if ctx else prov_of(fn)
-    out = {"atoms": set(), "calls": set(), "returns": set(), "stores": set()}
-    for at in atoms(fn):
+def summary(fn, norm, calls_pred=None, ctx=None, cut=False):
+    """dict(atoms=set, calls=set, returns=set) of normalised strings. With cut="loop" the loop-carried named locals stay
+    variables ($name) and their definitions are reported under "vardefs" (a loop is compared by its recurrence, not by an
+    unrolling)."""
+    pv = prov_of(fn, ctx, cut=cut) if (ctx or cut) else prov_of(fn)
+    out = {"atoms": set(), "calls": set(), "returns": set(), "stores": set(), "vardefs": set()}
+    if cut:
+        for loc_ in range(fn.argc + 1, len(fn.locals)):
+            n_ = fn.locals[loc_].get("n")
+            nwhole = [d for d in pv.defs.get(loc_, []) if d[2] is None]
+            if n_ and len(nwhole) > 1 and any(d[0] in pv.cycle_blocks() for d in nwhole):
+                for (_, _, t_) in pv.var_defs(loc_):
+                    for v in alts(t_):
+                        out["vardefs"].add("$%s := %s" % (n_, norm.s(v)))
+    for at in (atoms(fn, ctx, cut=cut) if (ctx or cut) else atoms(fn)):
         c = at.cond()
         if c is None:
             base = norm.s(at.term)
@@ -313,6 +341,9 @@ def summary(fn, norm, calls_pred=None, ctx=None):
                     s_ = strip(v)
                     if s_[0] == "call" and "from_residual" in s_[1]:
                         continue
+                    if prefix.endswith("Result::Err.0") and s_[0] == "payload" and s_[2] == "Err" and strip(s_[1])[0] == "call":
+                        continue    # `Err(e) => return Err(e)` on a callee's result is `?` spelled out
+
                     out["returns"].add(("%s = " % prefix if prefix else "") + norm.s(v))
             emit("", t)
         for si, st in enumerate(bb["s"]):
